@@ -207,7 +207,7 @@ class CustomNot(CombinatorOuter):
     def post(self, s0, s, a, r):
         uk = s0.sel("Operand.unique_key", a.predicate.e)
         return {"C08|returns-the-negation-closure-over-the-operand": _closure_check(r, "decorated", {"predicate": a.predicate}),
-                "C12|unique-key-identifies-the-operand": _attr(r, "unique_key") == z3.Function("fmt<not(|{}|)>", Str, Str)(uk)}
+                "C08,C12|unique-key-identifies-the-operand": _attr(r, "unique_key") == z3.Function("fmt<not(|{}|)>", Str, Str)(uk)}
 
 
 def _binary(name, opword):
@@ -220,7 +220,7 @@ def _binary(name, opword):
         def post(self, s0, s, a, r):
             lk, rk = s0.sel("Operand.unique_key", a.left.e), s0.sel("Operand.unique_key", a.right.e)
             return {f"C08|returns-the-{opword}-closure-over-left-then-right": _closure_check(r, "decorated", {"left": a.left, "right": a.right}),
-                    "C12|unique-key-identifies-both-operands": _attr(r, "unique_key") == z3.Function(
+                    "C08,C12|unique-key-identifies-both-operands": _attr(r, "unique_key") == z3.Function(
                         "fmt<{}| |{}| |{}>", Str, Str, Str, Str)(lk, z3.StringVal(opword), rk)}
     _B.__name__ = "Outer_" + name
     return _B
